@@ -12,7 +12,7 @@ PID = 'C08'
 THEOREMS = ['C08_struct_layout_is_psabi', 'C08_members_disjoint', 'C08_bitfield_in_unit', 'C08_known_bad_is_real',
             'C08_declspec_any_order', 'C08_nonvacuous',
             # package decl (Properties_C08_decl.v)
-            'C08_decl_declarator_is_c11', 'C08_decl_declarator_exact', 'C08_decl_abstract_declarator_is_c11', 'C08_decl_typename_is_c11', 'C08_decl_func_params_adjusted', 'C08_decl_size_align_is_psabi', 'C08_decl_size_align_any_base', 'C08_decl_static_restrict_ignored', 'C08_decl_every_type_has_a_declarator', 'C08_decl_unparse_parse', 'C08_decl_unparse_parse_typename', 'C08_decl_dummy_pass_sound', 'C08_decl_abstract_dummy_pass_sound', 'C08_decl_abstract_func_refuted', 'C08_decl_param_abstract_func_refuted', 'C08_decl_abstract_proto_rejected', 'C08_decl_big_bound_refuted', 'C08_decl_size_overflow_refuted', 'C08_decl_nonvacuous', 'C08_decl_nonvacuous_typename', 'C08_decl_nonvacuous_unparse', 'C08_decl_nonvacuous_with_layout']
+            'C08_decl_declarator_is_c11', 'C08_decl_declarator_exact', 'C08_decl_abstract_declarator_is_c11', 'C08_decl_typename_is_c11', 'C08_decl_func_params_adjusted', 'C08_decl_size_align_is_psabi', 'C08_decl_too_large_exact', 'C08_decl_size_or_too_large', 'C08_decl_typename_size_or_too_large', 'C08_decl_size_align_any_base', 'C08_decl_dummy_pass_never_fires_alone', 'C08_decl_static_quals_ignored', 'C08_decl_every_type_has_a_declarator', 'C08_decl_unparse_parse', 'C08_decl_unparse_parse_typename', 'C08_decl_dummy_pass_sound', 'C08_decl_abstract_dummy_pass_sound', 'C08_decl_abstract_func_repaired', 'C08_decl_param_abstract_func_repaired', 'C08_decl_abstract_proto_accepted', 'C08_decl_big_arrays_rejected', 'C08_decl_limit_is_sharp', 'C08_decl_nonvacuous', 'C08_decl_nonvacuous_typename', 'C08_decl_nonvacuous_unparse', 'C08_decl_nonvacuous_with_layout']
 MODELRUN = os.path.join(VERIF, 'ocaml/modelrun')
 PRINTF = 'int printf(const char *, ...);\nvoid *memset(void *, int, unsigned long);\n'
 SCALARS = [('char', 1, 1), ('short', 2, 2), ('int', 4, 4), ('long', 8, 8), ('float', 4, 4), ('double', 8, 8),
